@@ -265,9 +265,8 @@ def validate_trace(trace_path, module, cfg, tag, max_rounds=25, timeout=900, res
 
         def on_line(line):
             if line.startswith('<<"REJECTED_AT"'):
-                m = re.match(r'<<"REJECTED_AT", (\d+), (.*)>>', line.strip())
+                m = re.match(r'<<"REJECTED_AT", (\d+)', line.strip())
                 rej["at"] = int(m.group(1))
-                rej["event"] = m.group(2)
                 return True
             return False
 
@@ -286,7 +285,8 @@ def validate_trace(trace_path, module, cfg, tag, max_rounds=25, timeout=900, res
         n = 0
         for k, r in enumerate(runs):
             if n + len(r) >= at or k == len(runs) - 1:
-                rejected.append({"lines": r, "at": at - n, "event": rej.get("event")})
+                k_at = max(1, min(len(r), at - n))
+                rejected.append({"lines": r, "at": k_at, "event": r[k_at - 1]})
                 runs = runs[k + 1:]
                 break
             n += len(r)
@@ -299,14 +299,22 @@ def validate_trace(trace_path, module, cfg, tag, max_rounds=25, timeout=900, res
 
 # --------------------------------------------------------------------------- findings & evidence
 def load_findings():
-    path = os.path.join(VERIF, "known_findings.jsonl")
+    """known-findings.txt: `fixed:` lines suppress nothing; `open:` lines carry a match object."""
+    path = os.path.join(VERIF, "known-findings.txt")
     out = []
     if os.path.exists(path):
         with open(path) as f:
             for line in f:
                 line = line.strip()
-                if line and not line.startswith("#"):
-                    out.append(json.loads(line))
+                if line.startswith("open:"):
+                    m = re.match(r"open:\s+property=(\S+)\s+match=(\{.*?\})\s+::\s*(.*)$", line)
+                    if not m:
+                        raise ToolError("unparsable known-findings line: " + line)
+                    out.append({"status": "open", "property": m.group(1), "match": json.loads(m.group(2)), "what": m.group(3)})
+                elif line.startswith("fixed:"):
+                    m = re.match(r"fixed:\s+property=(\S+)\s+(\S+)\s+(.*)$", line)
+                    if m:
+                        out.append({"status": "fixed", "property": m.group(1), "commit": m.group(2), "what": m.group(3)})
     return out
 
 
@@ -366,8 +374,9 @@ class Report:
             w = fd.get("what", fd.get("deviation", "?"))
             self.known[w] = self.known.get(w, 0) + 1
         else:
-            if len(self.violations) < 50:
-                self.violations.append((sig, replay_obj))
+            if len(self.violations) < 8:
+                obj = replay_obj() if callable(replay_obj) else replay_obj
+                self.violations.append((sig, obj))
             else:
                 self.violations.append((sig, None))
 
